@@ -1344,8 +1344,12 @@ class SymSet:
         return z3.BoolVal(c) if isinstance(c, bool) else c
 
     def has(self, x):
-        alts = [z3.And(SymSet._c(c), to_z3(a) == to_z3(x)) for c, a in self.items]
-        return z3.Or(alts) if alts else z3.BoolVal(False)
+        def eq(a, b):  # None equals only None (an SMT term is never None)
+            if a is None or b is None:
+                return z3.BoolVal(a is None and b is None)
+            return to_z3(a) == to_z3(b)
+        alts = [z3.And(SymSet._c(c), eq(a, x)) for c, a in self.items]
+        return z3.simplify(z3.Or(alts)) if alts else z3.BoolVal(False)
 
     def __vc_binop__(self, I, op, other, reflected):
         if isinstance(other, (set, frozenset)):
